@@ -219,7 +219,7 @@ package ha
 // state (they configure the data plane / log / export metrics) and do not call
 // back into the controller.
 //@ type FailoverController
-//@   owns mu: state currentRole failoverTime failbackTime lastRoleChange failoverTimer failbackTimer onRoleChange handlers
+//@   owns mu: state currentRole failoverTime failbackTime lastRoleChange failoverTimer failbackTimer onRoleChange handlers failoverRunning
 
 //@ functype FailoverEventHandler(event)
 //@   modifies nothing
@@ -255,14 +255,14 @@ package ha
 //@ func (c *FailoverController) initiateFailover
 //@   modifies c.state
 //@   ensures c.currentRole == locked(c.currentRole)
-//@   ensures err != nil ==> c.state == locked(c.state) && locked(c.currentRole) == RoleActive
-//@   ensures err == nil ==> c.state == FailoverStateInProgress && locked(c.currentRole) != RoleActive
+//@   ensures err != nil ==> c.state == locked(c.state) && (locked(c.currentRole) == RoleActive || locked(c.failoverRunning))
+//@   ensures err == nil ==> c.state == FailoverStateInProgress && locked(c.currentRole) != RoleActive && !locked(c.failoverRunning)
 
 // ForceFailover (operator command). From the property: when the command returns, the
 // controller must not sit in the in-progress state with nothing scheduled to leave it.
 //@ func (c *FailoverController) ForceFailover
-//@   modifies c.state, c.currentRole, c.lastRoleChange, c.failoversInitiated, c.failoversCompleted
-//@   ensures err == nil ==> c.state != FailoverStateInProgress
+//@   modifies c.state, c.currentRole, c.lastRoleChange, c.failoversInitiated, c.failoversCompleted, c.failoverRunning
+//@   ensures err == nil ==> c.state != FailoverStateInProgress || c.failoverRunning
 //@   ensures err != nil && c.failoversInitiated != old(c.failoversInitiated) ==> c.state != FailoverStateInProgress
 
 // executeFailover: the role changes only on the path where the callback returned nil (that
@@ -270,8 +270,10 @@ package ha
 // left on every path.
 //@ func (c *FailoverController) executeFailover
 //@   perexit
-//@   modifies c.state, c.currentRole, c.lastRoleChange, c.failoversInitiated, c.failoversCompleted
-//@   ensures c.state != FailoverStateInProgress
+//@   modifies c.state, c.currentRole, c.lastRoleChange, c.failoversInitiated, c.failoversCompleted, c.failoverRunning
+// in progress at an exit only when another invocation is carrying the failover out (it leaves
+// the state on each of its own exits): never in progress with no transition pending
+//@   ensures c.state != FailoverStateInProgress || (c.failoverRunning && lockedN(1, c.failoverRunning))
 //@   ensures c.failoversCompleted == old(c.failoversCompleted) || c.failoversCompleted == (old(c.failoversCompleted) + 1) % 18446744073709551616
 //@   ensures c.failoversCompleted != old(c.failoversCompleted) ==> c.currentRole == RoleActive && c.state == FailoverStateComplete
 //@   ensures c.failoversCompleted == old(c.failoversCompleted) ==> c.currentRole == lockedN(1, c.currentRole) || c.currentRole == lockedN(2, c.currentRole)
@@ -280,6 +282,12 @@ package ha
 // a promotion is carried out only for a failover that is pending or in progress: a stale timer or
 // a repeated command that finds any other state (normal, complete, failback pending) does nothing
 //@   ensures lockedN(1, c.state) != FailoverStatePending && lockedN(1, c.state) != FailoverStateInProgress ==> c.failoversCompleted == old(c.failoversCompleted) && c.failoversInitiated == old(c.failoversInitiated)
+// "each promotion emits exactly one completed event": an invocation that arrives while another one
+// is carrying the failover out (lock released for the grace period and the callback) does nothing,
+// and the flag is held from the first section to the section that ends the attempt
+//@   ensures lockedN(1, c.failoverRunning) ==> c.failoversCompleted == old(c.failoversCompleted) && c.failoversInitiated == old(c.failoversInitiated)
+//@   ensures unlockedN(1, c.failoverRunning) == lockedN(1, c.failoverRunning)
+//@   ensures unlockedN(2, c.failoverRunning) && !unlockedN(3, c.failoverRunning) && !unlockedN(4, c.failoverRunning)
 // per critical section (program order: acquisitions 1 = entry, 2 = callback-failure path, 3 =
 // success path; releases 1 = early return, 2 = end of the first section, 3 = failure path,
 // 4 = success path): the first section never writes the role and only moves pending/in-progress
